@@ -8,7 +8,8 @@ def tail(s, n=2500):
     return s[-n:]
 
 
-REQ = ["Verif.lib.PyLite", "Verif.gen.BananaGen", "Verif.gen.SlicersGen", "Verif.lib.Token", "Verif.lib.Obj", "Verif.lib.ObjDefer", "Verif.lib.SendHeap"]
+REQ = ["Verif.lib.PyLite", "Verif.gen.BananaGen", "Verif.gen.SlicersGen", "Verif.lib.Token", "Verif.lib.Obj", "Verif.lib.ObjDefer", "Verif.lib.SendHeap",
+       "Verif.lib.Recv", "Verif.lib.ObjChunks", "Verif.lib.ObjKeepalive"]
 
 V1 = None
 
@@ -34,7 +35,10 @@ def run(ctx):
     ctx.rule = ("case = object graph (pool of lists/tuples/dicts/sets/frozensets/registered Copyables built bottom-up with "
                 "aliasing, plus forward edges from lists/dict values/sets giving cycles; atoms around every integer encoding "
                 "boundary, special float bit patterns, bytes/text incl. astral code points, Decimal specials, bool/None) x "
-                "vocabulary table (none / negotiated table 1 / replaced mid-stream) x chunking (1 chunk / bytewise / random); "
+                "vocabulary table (none / negotiated table 1 / replaced mid-stream) x chunking (1 chunk / bytewise / random) x "
+                "keepalive tokens (PING / PONG with and without a number, written by sendPING / sendPONG or by the keepalive timer) at "
+                "token boundaries of the stream (front / between objects / index phase / before CLOSE / behind bodies / everywhere / "
+                "bursts), packed alone, glued to the 1..100 bytes behind them, or at the tail of a packet; "
                 "non-trivial = distinct canonical term with at least one container that was sent, received and compared")
     ctx.assumptions = [
         "text is modelled as its UTF-8 byte string and floats as their 8 bytes: str.encode/decode('UTF-8') and struct.pack/unpack('!d') "
@@ -54,6 +58,10 @@ def run(ctx):
         "byte-level receive (handleData, StringChain) is the lead's C07: its generic tokenizer (lib/Recv.v) is composed with the object "
         "layer in C01_end_to_end_any_chunking (every packetisation); the tie of Recv.v to banana.py is C07's; the real "
         "receiver is run under 1-chunk / bytewise / random chunkings",
+        "keepalive tokens: that handleData's PING / PONG clauses only answer / continue and are reached after the look-ahead window was "
+        "put back is a translated shape fact (gen/SlicersGen.v keepalive_tokens_ignored, fail closed) plus the per-case runs (real bytes of "
+        "sendPING / sendPONG spliced at token boundaries, real receiver under packings that glue them to their neighbours; Brokers whose "
+        "keepalive timer fires under the virtual clock); the PONG replies themselves are not compared (not part of the property)",
         "the sender is a machine in the model (lib/SendHeap.v: slicer stack, scoped reference tables translated from ScopedSlicer, open "
         "counter) and is run on the harness's encoding of the sender's heap; not modelled there: Python's object lifetime (an object is "
         "its id for the whole scope: the translator requires the table entry to hold the object), the order in which dict / set "
@@ -65,12 +73,13 @@ def run(ctx):
     before = len(ctx.failures)
     model_ok = ok
     if not ok:
-        model_ok, _ = ctx.coq_build(["lib/ObjDefer.vo", "lib/SendHeap.vo"])
+        model_ok, _ = ctx.coq_build(["lib/ObjDefer.vo", "lib/SendHeap.vo", "lib/ObjChunks.vo", "lib/ObjKeepalive.vo"])
 
     del COUNTER_CASES[:]
     del REFUSED_CASES[:]
     del CRAFTED_OK[:]
     coq_cases = []      # (scoped, n, terms, vocab strings or None, bytes)
+    ka_cases = []       # streams with keepalive tokens: (terms, vocab, bytes with the tokens, one packetisation)
     switch_cases = []   # (tbl0, n, terms1, tbl1, terms2, bytes)
 
     # ---- 1. corpus: regression witnesses (fixed defects must pass) and hand-written shapes
@@ -108,9 +117,15 @@ def run(ctx):
     roundtrip_case(ctx, I, "texts", [list(I.TEXTS) + list(I.BYTESES)], vocab_v1(), coq_cases)
     roundtrip_case(ctx, I, "decimals", [[decimal.Decimal(s) for s in I.DECIMALS]], None, coq_cases)
 
+    # ---- 3b. keepalive tokens inside the byte stream (fixed witnesses: every placement family x every packing)
+    for gi, (gname, build, voc) in enumerate(keepalive_graphs(I)):
+        for fi, family in enumerate(I.KA_FAMILIES):
+            kinds = I.KA_KINDS[(gi + fi) % len(I.KA_KINDS):] + I.KA_KINDS[:(gi + fi) % len(I.KA_KINDS)]
+            keepalive_case(ctx, I, "keepalive-%s/%s" % (gname, family), build(), voc, family, kinds, I.KA_CHUNKINGS, ka_cases)
+
     # ---- 4. vocabulary replaced in the middle of the stream
-    for name, objs, wls, initial in switch_family(I):
-        switch_case(ctx, I, name, switch_cases, objs, wls, initial)
+    for j, (name, objs, wls, initial) in enumerate(switch_family(I)):
+        switch_case(ctx, I, name, switch_cases, objs, wls, initial, ka_family=I.KA_FAMILIES[j % len(I.KA_FAMILIES)])
     for i in range(ctx.n(40, 400)):
         switch_case(ctx, I, "switch%d" % i, switch_cases)
 
@@ -120,7 +135,8 @@ def run(ctx):
         if rng.random() < 0.5:
             allp = rejected_preludes(I, rng)
             pres = tuple(rng.choice(allp) for _ in range(rng.choice([1, 1, 2, 3])))
-        call_case(ctx, I, "call%d" % i, random_argsets(I, rng), coq_cases, vi=1 if rng.random() < 0.5 else None, preludes=pres)
+        call_case(ctx, I, "call%d" % i, random_argsets(I, rng), coq_cases, vi=1 if rng.random() < 0.5 else None, preludes=pres,
+                  ka=("ping", i % 9) if i % 3 == 2 else None)
     # fixed witnesses: every kind of rejected message, then calls with sharing / late tuples / computed copies
     followers = late_tuple_calls(I)[:3] + computed_copy_calls(I)[:2]
     for j, pre in enumerate(rejected_preludes(I)):
@@ -136,9 +152,35 @@ def run(ctx):
         call_case(ctx, I, name, argsets, coq_cases, vi=None, chunk="one")
         call_case(ctx, I, name + "/bytewise", argsets, coq_cases, vi=1, chunk="bytewise")
 
+    # keepalive tokens on a connection that carries calls (fixed witnesses): the caller's PING is written right before the
+    # call (sendPING, or the keepalive timer of an idle connection), the callee's PONG sits right in front of the answer
+    for name, argsets in keepalive_calls(I):
+        for ka in (("ping", 0), ("ping", 77), "timer"):
+            for chunk, vi in (("one", None), ("bytewise", 1), ("random", None)):
+                call_case(ctx, I, "%s/%s/%s" % (name, ka if ka == "timer" else "ping%d" % ka[1], chunk), argsets, coq_cases, vi=vi,
+                          chunk=chunk, ka=ka)
+
+    # ---- 5b. keepalive tokens at random token boundaries of streams that were delivered above (no new serialization)
+    pool = [c for c in coq_cases if c.get("objs") is not None]
+    for i in range(min(len(pool), ctx.n(120, 1200))):
+        c = pool[rng.randrange(len(pool))]
+        fam = rng.choice(["random", "random", "random"] + I.KA_FAMILIES)
+        kinds = [rng.choice(I.KA_KINDS) for _ in range(6)]
+        hows = ["one", rng.choice(I.KA_CHUNKINGS)]
+        keepalive_case(ctx, I, "keepalive-%s/%s" % (c["name"], fam), c["objs"], c["voc"], fam, kinds, hows,
+                       ka_cases if i % 8 == 0 else None, stored=c)
+
+    # ---- 5c. a container shared between the state of a pass-by-copy instance and another path, the instance sliced FIRST
+    # (fixed witnesses: the instance is copied per occurrence, the lists / dicts / sets / tuples behind it keep their identity)
+    for name, g in shared_through_copyable_graphs(I):
+        roundtrip_case(ctx, I, name, [g], vocab_v1() if "nested" in name else None, coq_cases, corpus=True)
+    for name, argsets in shared_through_copyable_calls(I):
+        call_case(ctx, I, name, argsets, coq_cases, vi=None, chunk="one")
+        call_case(ctx, I, name + "/bytewise", argsets, coq_cases, vi=1, chunk="bytewise")
+
     # ---- 6. correspondence with the Coq model
     if model_ok:
-        correspond(ctx, I, coq_cases + CRAFTED_OK, switch_cases)
+        correspond(ctx, I, coq_cases + CRAFTED_OK, switch_cases, ka_cases)
     else:
         ctx.fail("correspondence-broken", "lib/Obj.v does not build against the regenerated gen/SlicersGen.v:\n" + tail(log),
                  replay=dict(log=tail(log, 6000)), has_input=False)
@@ -427,7 +469,8 @@ def roundtrip_case(ctx, I, name, objs, voc, coq_cases, corpus=False):
             break
     if ok_all:
         ctx.hist("outcome", "delivered")
-        coq_cases.append(dict(name=name, scoped=True, n=0, terms=terms, voc=voc, data=data, hazard=bool(hazards), heap=heap_of_case(I, objs, data)))
+        coq_cases.append(dict(name=name, scoped=True, n=0, terms=terms, voc=voc, data=data, hazard=bool(hazards), heap=heap_of_case(I, objs, data),
+                              objs=objs if len(data) <= 3000 and not hazards else None))
 
 
 def heap_of_case(I, objs, data, limit=4000):
@@ -452,6 +495,146 @@ def oracle_sig(d, I=None, terms=None, n=0):
     if "value changed" in d or "float bits" in d or "Decimal" in d:
         return "value-changed"
     return "graph-changed"
+
+
+def shared_through_copyable_graphs(I):
+    def box(cls=None, **kw):
+        c = (cls or I.CA)()
+        c.__dict__.update(kw)
+        return c
+    out = []
+    for kname, mk in (("list", lambda: [1, 2]), ("dict", lambda: {"k": 1}), ("set", lambda: {3}), ("tuple", lambda: (1, [2]))):
+        x = mk()
+        out.append(("copy-first-then-%s" % kname, [box(x=x), x]))
+        x = mk()
+        out.append(("copy-first-then-%s/tuple-root" % kname, (box(I.CD, x=x), [x], x)))
+        x = mk()
+        b = box(I.CB, x=x)
+        out.append(("same-copy-twice-then-%s" % kname, [b, b, x]))
+        x = mk()
+        out.append(("copy-in-copy-then-%s" % kname, [box(y=box(I.CC, x=x), z=x), x]))
+    d, s_, l = {"k": 1}, {3}, [b"payload"]
+    out.append(("copy-first-nested", {"a": [box(d=d, s=s_, l=l)], "d": d, "l": l, "s": s_}))
+    l = []
+    b = box(x=l); l.append(b)
+    out.append(("copy-first-cycle", [b, l]))
+    return out
+
+
+def shared_through_copyable_calls(I):
+    def box(cls=None, **kw):
+        c = (cls or I.CA)()
+        c.__dict__.update(kw)
+        return c
+    l1, l2, s_, d, t = [1, 2, 3], [4], {b"m"}, {"k": [5]}, (6, [7])
+    b = box(I.CB, x=l2)
+    return [
+        ("call-copy-first-then-shared", [((box(x=l1), l1), {}), ((), {"first": box(members=s_), "second": s_})]),
+        ("call-copy-first-then-shared/mixed", [((b, b, l2, [box(I.CD, d=d, t=t)], d), {"t": t}), (([box(x=l1)], (l1,)), {"z": {"k": l1}})]),
+    ]
+
+
+def keepalive_graphs(I):
+    """[(name, builder of the list of top-level objects, vocabulary)]: shorter than the receiver's 65-byte look-ahead, longer
+    than it, with bodies longer than it, several top-level objects, deferred (late) tuples, Copyables, a vocabulary"""
+    D = decimal.Decimal
+
+    def shared(k=0):
+        s = [1 + k, 2.5, b"bytes", "text \u1234", None, True]
+        t = (s, -2 ** 31, 2 ** 64, D("1.50"))
+        c = I.CA(); c.x = [s, t]; c.y = "attr"
+        return {b"a": s, b"t": t, b"s": {1, 2, 3}, b"f": frozenset([b"x"]), b"l": [s, t], b"c": c}
+
+    def small():
+        return [[1, [2]]]
+
+    def two():
+        a = shared(1)
+        return [a, [a, shared(2)], [7]]
+
+    def late():
+        L = []; t0 = (L, 5); t1 = (t0, 6); L.append(t1)
+        return [[t0, [t1, t1], {"k": t1}]]
+
+    def bodies():
+        return [[b"z" * 1000, "x" * 300, 2 ** 800, -(2 ** 520), 1.5, b"a" * 64, b"b" * 65, b"c" * 63, [b""], ""]]
+
+    return [("small", small, None), ("shared", lambda: [shared()], None), ("shared-vocab", lambda: [shared()], vocab_v1()),
+            ("several-objects", two, None), ("late-tuple", late, None), ("long-bodies", bodies, None)]
+
+
+def keepalive_calls(I):
+    def shared(k):
+        s = [k, [k + 1], "text"]
+        c = I.CB(); c.v = [s, (s,)]
+        return s, c
+    s1, c1 = shared(1)
+    s2, c2 = shared(5)
+    return [
+        ("call-keepalive/shared", [((s1, [s1, (s1,)], c1), {"kw": s1, "d": {"k": [s1]}}), ((s2, c2), {"z": (s2, s2)})]),
+        ("call-keepalive/computed", [(([I.Basket([3, 1, 2]), I.Point(1, 2)],), {"left": I.Basket([9])}), ((I.Basket([5], s1), s1), {})]),
+    ]
+
+
+def keepalive_case(ctx, I, name, objs, voc, family, kinds, hows, ka_cases=None, stored=None):
+    """objs go through one storage Banana; keepalive tokens (bytes of the real sendPING / sendPONG) are spliced into the
+    serialized stream at the token boundaries of the placement `family` (the kinds in rotation); the stream is received under
+    every packing of `hows`.  Oracle: the graph that arrives is the graph that was sent -- keepalive tokens are not part of any
+    object -- for every packing."""
+    rng = ctx.rng
+    I.KEEP.clear()
+    if stored is not None:
+        terms, data = stored["terms"], stored["data"]
+        ends = [len(data)]
+    else:
+        try:
+            terms, _ = I.canon_list_py(objs, 0, True)
+        except (I.Unsupported, RecursionError):
+            return
+        if I.deferred_hazards(terms, 0):
+            return
+        b = I.new_sender(voc)
+        ends = []
+        for o in objs:
+            if I.send_obj(b, o):
+                return          # what cannot be sent is roundtrip_case's business
+            ends.append(len(b.transport.out))
+        data = bytes(b.transport.out)
+    places = I.ka_places(rng, data, ends, family)
+    if not places:
+        return
+    used = [kinds[i % len(kinds)] for i in range(len(places))]
+    stream, spans = I.ka_splice(data, [(off, I.ka_token(*k)) for off, k in zip(places, used)])
+    key = [I.term_coq(t) for t in terms]
+    kdesc = ["%s(%d)@%d" % (k[0].upper(), k[1], off) for off, k in zip(places, used)]
+    ctx.case(dict(ka=kdesc[:60], t=key, v=bool(voc)), nontrivial=True)
+    ctx.hist("keepalive_placement", family)
+    last_cuts = []
+    for how in hows:
+        if how == "bytewise" and len(stream) > 6000:
+            continue
+        cuts = I.ka_chunkings(rng, len(stream), spans, how)
+        r = I.receive(stream, cuts, voc, written=bytearray())
+        ctx.traces += 1
+        ctx.hist("keepalive_packing", how)
+        what = ("keepalive tokens %s spliced into the %d-byte serialization at token boundaries (placement %s; offsets are those of "
+                "the stream without them), packets cut at %s (%s)" % (", ".join(kdesc[:12]), len(data), family, cuts[:24], how))
+        replay = dict(case=name, term=key, placement=family, keepalives=kdesc[:60], chunking=how, cuts=cuts[:60],
+                      data=stream.hex()[:4000], python=repr(objs)[:1500])
+        if r[0] != "ok":
+            ctx.fail("oracle/keepalive/receive-failed", "a graph that is delivered without keepalive tokens in the stream is not delivered "
+                     "with them (%s: %s): %s; graph: %s" % (r[0], r[1], what, " ; ".join(key)[:500]), replay=replay)
+            return
+        d = I.oracle_iso(objs, r[1])
+        if d:
+            ctx.fail("oracle/keepalive/" + oracle_sig(d), "keepalive tokens in the stream changed the graph that arrives: %s; %s; graph: %s"
+                     % (d, what, " ; ".join(key)[:500]), replay=replay)
+            return
+        if how.startswith("glued") or not last_cuts:
+            last_cuts = cuts
+    ctx.hist("outcome", "delivered-with-keepalive-tokens")
+    if ka_cases is not None and len(stream) <= 1000:
+        ka_cases.append(dict(name=name, terms=terms, voc=voc, data=stream, cuts=last_cuts))
 
 
 def finding_witnesses(ctx, I):
@@ -594,9 +777,10 @@ def switch_family(I):
     return out
 
 
-def switch_case(ctx, I, name, switch_cases, objs=None, wordlists=None, initial=None):
+def switch_case(ctx, I, name, switch_cases, objs=None, wordlists=None, initial=None, ka_family=None):
     """objects sent through one storage Banana with the outgoing vocabulary replaced (setOutgoingVocabulary, arbitrary word
-    lists) between every two of them"""
+    lists) between every two of them; ka_family: the same stream once more with keepalive tokens at that placement family
+    (also inside the set-vocab sequences)"""
     rng = ctx.rng
     I.KEEP.clear()
     if objs is None:
@@ -667,6 +851,25 @@ def switch_case(ctx, I, name, switch_cases, objs=None, wordlists=None, initial=N
             return
     ctx.hist("outcome", "delivered-across-vocab-switch")
     switch_cases.append(dict(tbl0=tbl0, terms=terms, tbls=tbls, data=data))
+    if ka_family:
+        places = I.ka_places(None, data, [], ka_family)
+        used = [I.KA_KINDS[i % len(I.KA_KINDS)] for i in range(len(places))]
+        stream, spans = I.ka_splice(data, [(off, I.ka_token(*k)) for off, k in zip(places, used)])
+        kdesc = ["%s(%d)@%d" % (k[0].upper(), k[1], off) for off, k in zip(places, used)]
+        for how in ("one", "alone", "glued-10", "glued-65", "tail"):
+            cuts = I.ka_chunkings(None, len(stream), spans, how)
+            r = I.receive(stream, cuts, words0 if words0 else None, written=bytearray())
+            ctx.traces += 1
+            d = r[1] if r[0] != "ok" else I.oracle_iso(objs, r[1])
+            if d:
+                ctx.fail("oracle/keepalive/vocab-switch/" + ("receive-failed" if r[0] != "ok" else oracle_sig(d)),
+                         "a stream with vocabulary switches that is delivered without keepalive tokens changes / is not delivered with them: %s; "
+                         "keepalive tokens %s (placement %s, offsets of the stream without them), packets cut at %s (%s); word lists %r "
+                         "(initial %r); graphs %s" % (d, ", ".join(kdesc[:12]), ka_family, cuts[:24], how, tdesc,
+                                                      initial if initial == "v1" else words0, " ; ".join(key)[:400]),
+                         replay=dict(case=name, term=key, words=tdesc, keepalives=kdesc[:60], cuts=cuts[:60], data=stream.hex()[:4000]))
+                return
+        ctx.hist("outcome", "delivered-across-vocab-switch-with-keepalive-tokens")
 
 
 def random_argsets(I, rng):
@@ -755,12 +958,31 @@ def run_prelude(ctx, I, P, pre, rng, chunk):
     return rejected
 
 
-def call_case(ctx, I, name, argsets, coq_cases, vi=None, chunk=None, preludes=()):
+def write_keepalive(ctx, I, P, ka):
+    """what an idle connection with keepalives does right before application traffic: ka = ("ping", number): the caller's
+    Banana.sendPING(number); ka = "timer": virtual time passes until the keepalive timers (keepaliveTimeout = 30 s) of both
+    ends fire and keepaliveTimerFired writes the PINGs.  Nothing is delivered here: the token stays in the transport and
+    travels together with whatever is written next."""
+    with I.E.quiet():
+        if ka == "timer":
+            I.E.clock.advance(31)
+        else:
+            P.caller.sendPING(ka[1])
+    ctx.hist("keepalive_on_connection", "timer" if ka == "timer" else "sendPING")
+
+
+def call_case(ctx, I, name, argsets, coq_cases, vi=None, chunk=None, preludes=(), ka=None):
     """successive calls on one connection (then one echo whose value comes back in an answer scope): sharing inside each
-    call is kept, nothing is shared between calls, every pass-by-copy instance arrives with its own state"""
+    call is kept, nothing is shared between calls, every pass-by-copy instance arrives with its own state.
+    ka: a keepalive PING is written on the caller's side right before every call (the callee's PONG then sits right in front
+    of the answer): same arguments, same answer, whatever the packets look like"""
     rng = ctx.rng
     I.KEEP.clear()
-    P = I.Pair(vi)
+    P = I.Pair(vi, keepalive=30 if ka == "timer" else None)
+    katag = "/keepalive-tokens-in-stream" if ka else ""
+    kahist = ("[history: a keepalive PING (%s) is written on the caller's side right before every call, so PING and call travel "
+              "together; packets: %s] " % ("keepalive timer fired after 31 idle seconds" if ka == "timer" else "sendPING(%d)" % ka[1],
+                                           chunk or "random choice")) if ka else ""
     voc = vocab_v1() if vi else None
     if callable(argsets):
         argsets = argsets()          # built AFTER the connection exists (e.g. Copyable classes registered late)
@@ -783,10 +1005,18 @@ def call_case(ctx, I, name, argsets, coq_cases, vi=None, chunk=None, preludes=()
     n = n0
     for ci, (a, kw) in enumerate(argsets):
         res = []
+        if ka:
+            write_keepalive(ctx, I, P, ka)
         with I.E.quiet():
             P.rr.callRemote("take", *a, **kw).addBoth(res.append)
             I.E.turn()
         data = P.pump(P.caller, P.callee, rng, chunk or rng.choice(["one", "bytewise", "random"]))
+        if ka:
+            try:
+                ctx.hist("keepalive_on_connection", "PING in front of the call" if 0x8e in I.token_bounds(data)[1][:3] else "no PING in front of the call")
+                data = I.strip_ka_bytes(data)
+            except (ValueError, IndexError):
+                pass
         sent_bytes.append(data)
         P.pump(P.callee, P.caller)
         # canonical term of the call sequence: call(reqID, clid, method, arguments(nargs, args.., kwname, kwvalue..))
@@ -803,19 +1033,20 @@ def call_case(ctx, I, name, argsets, coq_cases, vi=None, chunk=None, preludes=()
     shape = (("[after rejected: %s] " % ", ".join("%s %s%r" % (p[4], p[1], (p[2], p[3])) for p in preludes)[:500]) if preludes else "") + \
         " ; ".join(I.term_coq(t) for t in terms)[:900]
     if len(P.target.calls) != len(argsets) or P.t_caller.closed or P.t_callee.closed:
-        ctx.fail("oracle/call-not-delivered" + ("/copyable-registered-after-connection" if "late-registered" in name else ""),
+        ctx.fail("oracle/call-not-delivered" + ("/copyable-registered-after-connection" if "late-registered" in name else "") + katag,
+                 kahist +
                  ("[history: connection made, THEN the Copyable classes of this call were registered, then the call] " if "late-registered" in name else "") +
                  "a call whose arguments share objects was not delivered (delivered %d of %d, connection %s); calls: %s"
                  % (len(P.target.calls), len(argsets), "closed" if P.t_caller.closed or P.t_callee.closed else "open", shape),
-                 replay=dict(case=name, args=repr(argsets)[:1500], terms=shape))
+                 replay=dict(case=name, args=repr(argsets)[:1500], terms=shape, keepalive=repr(ka), packets=chunk or "random choice"))
         return
-    ctx.case(dict(call=[I.term_coq(t) for t in terms], v=vi), nontrivial=True)
+    ctx.case(dict(call=[I.term_coq(t) for t in terms], v=vi, ka=repr(ka)), nontrivial=True)
     # oracle: each call's arguments arrive isomorphic (values, types, sharing inside the call kept, none invented) ...
     for (a, kw), (ra, rkw) in zip(argsets, P.target.calls):
         d = I.oracle_iso([list(a), kw], [list(ra), rkw])
         if d:
-            ctx.fail("oracle/call/" + oracle_sig(d) if not I.tuple_ref_after_dict_value_ref(terms, n0)
-                     else "oracle/graph-changed/tuple-ref-after-dict-value-ref", "arguments of a call changed in transit: %s; call: %s" % (d, shape),
+            ctx.fail("oracle/call/" + oracle_sig(d) + katag if not I.tuple_ref_after_dict_value_ref(terms, n0)
+                     else "oracle/graph-changed/tuple-ref-after-dict-value-ref", kahist + "arguments of a call changed in transit: %s; call: %s" % (d, shape),
                      replay=dict(case=name, args=repr((a, kw))[:1500], terms=shape))
             return
     # ... and nothing is shared between the calls, nor with the caller's objects
@@ -849,6 +1080,8 @@ def call_case(ctx, I, name, argsets, coq_cases, vi=None, chunk=None, preludes=()
     val = list(a0)
     m0 = P.callee.openCount
     res = []
+    if ka:
+        write_keepalive(ctx, I, P, ka)
     with I.E.quiet():
         P.rr.callRemote("echo", val).addBoth(res.append)
         I.E.turn()
@@ -856,14 +1089,21 @@ def call_case(ctx, I, name, argsets, coq_cases, vi=None, chunk=None, preludes=()
     back = P.pump(P.callee, P.caller, rng, chunk or rng.choice(["one", "bytewise", "random"]))
     I.E.turn()
     ctx.traces += 1
+    if ka:
+        try:
+            ctx.hist("keepalive_on_connection", "PONG in front of the answer" if 0x8f in I.token_bounds(back)[1][:3] else "no PONG in front of the answer")
+            back = I.strip_ka_bytes(back)
+        except (ValueError, IndexError):
+            pass
     if len(res) != 1 or isinstance(res[0], I.Failure):
-        ctx.fail("oracle/answer-not-delivered", "the value returned by a remote method did not arrive: %r; value: %s" % (res[:1], shape[:500]),
-                 replay=dict(case=name, value=repr(val)[:1500]))
+        ctx.fail("oracle/answer-not-delivered" + katag, (kahist and kahist[:-2] + "; the callee's PONG and the answer travel together] ") +
+                 "the value returned by a remote method did not arrive: %r; value: %s" % (res[:1], shape[:500]),
+                 replay=dict(case=name, value=repr(val)[:1500], keepalive=repr(ka)))
         return
     d = I.oracle_iso([val], [res[0]])
     if d:
-        ctx.fail("oracle/answer/" + oracle_sig(d), "the value returned by a remote method changed in transit: %s; value: %s" % (d, shape[:500]),
-                 replay=dict(case=name, value=repr(val)[:1500]))
+        ctx.fail("oracle/answer/" + oracle_sig(d) + katag, kahist + "the value returned by a remote method changed in transit: %s; value: %s" % (d, shape[:500]),
+                 replay=dict(case=name, value=repr(val)[:1500], keepalive=repr(ka)))
         return
     keep = (res[0],)
     if I.mutable_ids(keep) & (set().union(*idsets) | sent_ids):
@@ -992,7 +1232,34 @@ Definition vchk (c : vtable * list obj * list vtable * list Z) : Z :=
 """
 
 
-def correspond(ctx, I, coq_cases, switch_cases):
+KCHK = ZB + """
+Definition fuel_of (ts : list obj) : nat := S (size_list ts).
+Definition bytes_of (ts : list token) : option (list Z) := match encode_stream ts with Ok b => Some b | Exc _ => None end.
+Definition same_bytes (a b : option (list Z)) : bool := match a, b with Some x, Some y => list_eqb x y | _, _ => false end.
+(* a stream with keepalive tokens, written by the real sendPING / sendPONG into the real serializer's bytes *)
+Definition kchk (c : vtable * list obj * list Z * list (list Z)) : Z :=
+  let '(tbl, ts, bs, cs) := c in
+  match decode bs with
+  | (w, EndClean) =>
+    (* what is left when the keepalive tokens are taken out is the sender's stream; and there ARE keepalive tokens *)
+    let b_strip := same_bytes (bytes_of (strip_ka w)) (bytes_of (envocab tbl (slice_list 0 ts))) in
+    let b_some := negb (Nat.eqb (List.length w) (List.length (strip_ka w))) in
+    let same := fun (r : option (heap * list value)) =>
+                  match r with
+                  | Some (h, vs) => match canon_list (fuel_of ts) h 0 vs with Some (os, _) => objs_eqb os ts | None => false end
+                  | None => false end in
+    let b_recv := match devocab tbl w with Some tk => same (unslice true 0 tk) | None => false end in
+    let b_drecv := match devocab tbl w with Some tk => same (dunslice true 0 tk) | None => false end in
+    (* C07's byte-level receiver on the packets that were used (keepalive tokens glued to their neighbours) *)
+    let b_chunks := same_bytes (bytes_of (tokens_of_chunks cs)) (Some bs) && list_eqb (List.concat cs) bs in
+    (if b_strip then 1 else 0) + (if b_some then 2 else 0) + (if b_recv then 4 else 0) + (if b_drecv then 8 else 0)
+    + (if b_chunks then 16 else 0)
+  | _ => 0
+  end.
+"""
+
+
+def correspond(ctx, I, coq_cases, switch_cases, ka_cases=()):
     from harness.c01_impl import term_coq, coq_Zs
     nbad = 0
     total = 0
@@ -1055,6 +1322,44 @@ def correspond(ctx, I, coq_cases, switch_cases):
                          (c["name"], "; ".join(what), " ; ".join(term_coq(t) for t in c["terms"])[:600]),
                          replay=dict(case=c["name"], code=v, term=[term_coq(t) for t in c["terms"]], data=c["data"].hex()[:4000],
                                      vocab=bool(c["voc"])), has_input=False)
+    # keepalive tokens in the stream: the model reads the real bytes (keepalive tokens included), drops the tokens
+    # (strip_ka = the sender's stream), and its receivers, fed the stream WITH the tokens, rebuild the term's graph
+    ka_cases = list(ka_cases)[:ctx.n(70, 300)]
+    for lo in range(0, len(ka_cases), 150):
+        shard = ka_cases[lo:lo + 150]
+        rows = []
+        for c in shard:
+            cuts = [0] + [x for x in c["cuts"] if 0 < x < len(c["data"])] + [len(c["data"])]
+            cs = "[" + "; ".join(coq_Zs(c["data"][a:b_]) for a, b_ in zip(cuts, cuts[1:])) + "]"
+            rows.append("(%s, [%s], %s, %s)" % (coq_tbl(c["voc"] or []), "; ".join(term_coq(t) for t in c["terms"]), coq_Zs(c["data"]), cs))
+        body = "Open Scope Z_scope.\n" + KCHK + "Definition cases : list (vtable * list obj * list Z * list (list Z)) := [\n" + ";\n".join(rows) + \
+               "].\nEval vm_compute in map kchk cases.\n"
+        try:
+            (vals,) = ctx.coq_eval("C01_keepalive_%d" % lo, body, requires=REQ)
+        except common.CoqEvalError as e:
+            ctx.fail("correspondence-broken", "the model could not be evaluated (keepalive tokens): " + str(e)[-1500:], has_input=False)
+            return
+        for c, v in zip(shard, vals):
+            total += 1
+            if v == 27 and I.has_deferred_tuple(c["terms"], 0):
+                continue        # pointer machine's close-time approximation, as for code 254 above; the Deferred-level model delivers
+            if v != 31:
+                nbad += 1
+                what = []
+                if not v & 1:
+                    what.append("the real stream minus its keepalive tokens (strip_ka (decode bytes)) is not the model's sender stream")
+                if not v & 2:
+                    what.append("the model sees no keepalive token in the stream")
+                if not v & 4:
+                    what.append("receiver: canon (unslice (devocab (decode bytes with keepalive tokens))) differs from the term")
+                if not v & 8:
+                    what.append("receiver: the Deferred-level model does not deliver the term's graph from the stream with keepalive tokens")
+                if not v & 16:
+                    what.append("byte-level receiver (Recv.v) on the packets used does not hand up the tokens of the stream")
+                ctx.fail("correspondence/keepalive", "model and implementation disagree on a stream with keepalive tokens (code %d, case %s): %s; term: %s"
+                         % (v, c["name"], "; ".join(what) or "stream not readable", " ; ".join(term_coq(t) for t in c["terms"])[:500]),
+                         replay=dict(case=c["name"], code=v, term=[term_coq(t) for t in c["terms"]], data=c["data"].hex()[:4000], cuts=c["cuts"][:60]),
+                         has_input=False)
     # vocabulary switch
     for lo in range(0, len(switch_cases), 100):
         shard = switch_cases[lo:lo + 100]
